@@ -450,6 +450,14 @@ func ObserveBuilt(b *Built) *Outcome {
 		}
 		ex, err := s.Example()
 		differs("Example()", fmt.Sprintf("%s,%s", o.Example, o.ExampleErr), fmt.Sprintf("%s,%s", ex, Describe(err)))
+		if o.Check == nil {
+			j, err := openapi.NewSchemaObject(s).MarshalJSON()
+			es := ""
+			if err != nil {
+				es = err.Error()
+			}
+			differs("OpenAPI", o.OpenAPI+"|"+o.OpenAPIErr, string(j)+"|"+es)
+		}
 	})
 	o.Escapes = b.Escapes
 	return o
